@@ -1329,8 +1329,11 @@ pub fn configs(prop: CProp, tier: Tier) -> Vec<CCfg> {
                         for dl in [10_000i64, 50] {
                             // 3 calls, then 3 more started as the first ones end (slot reuse)
                             for pol in [[true, true, true], [true, false, true], [false, false, true]] {
+                                if !thorough && buf == 2 && pol[0] {
+                                    continue;
+                                }
                                 let mut callers: Vec<CallerCfg> = Vec::new();
-                                for i in 0..6usize {
+                                for i in 0..(if thorough { 6usize } else { 5 }) {
                                     let mut c = CallerCfg::simple(pol[i % 3]);
                                     c.deadline_ms = dl;
                                     if i >= 3 {
@@ -1343,7 +1346,8 @@ pub fn configs(prop: CProp, tier: Tier) -> Vec<CCfg> {
                                 out.push(c);
                                 let mut cs = callers.clone();
                                 cs[1].script = Script::AbandonAfter(1);
-                                cs[4].script = Script::AbandonAfter(2);
+                                let last = cs.len() - 1;
+                                cs[last.min(4)].script = Script::AbandonAfter(2);
                                 let mut c = base(cs, mif, buf, *fl, *cap, alpha);
                                 c.keep_root = true;
                                 out.push(c);
